@@ -24,6 +24,33 @@ def _apply(spec, pyv, partial):
     return ['err', type(e).__name__], None
 
 
+def dispatch_mismatches(spec, values):
+  """Union dispatch: a value that IS an instance of a candidate's value type goes to the first such
+  candidate (in declaration order), whatever converters exist for the candidates listed before it."""
+  import pyglove as pg
+  bad = []
+  if not isinstance(spec, pg.typing.Union) or spec.frozen:
+    return bad
+  for v in values:
+    pv = tv.to_py(v)
+    if pv is None or pg.MISSING_VALUE == pv:
+      continue
+    cand = None
+    for c in spec.candidates:
+      if c.value_type is not None and isinstance(pv, c.value_type):
+        cand = c
+        break
+    if cand is None:
+      continue
+    r0, o0 = _apply(cand, tv.to_py(v), False)
+    r1, o1 = _apply(spec, tv.to_py(v), False)
+    e0 = ['ok', tv.from_py(o0)] if r0[0] == 'ok' else r0
+    e1 = ['ok', tv.from_py(o1)] if r1[0] == 'ok' else r1
+    if e0 != e1:
+      bad.append([v, e0, e1])
+  return bad
+
+
 def apply_all(spec, values):
   """[[apply(v), apply(apply(v)), apply(v, allow_partial=True)], ...] in wire format."""
   out = []
@@ -453,6 +480,10 @@ class C04(Prop):
       elif rng.chance(0.04):
         child, base = tv.tuple_pair(g)         # fixed tuple over variable tuple at the size bounds
       elif rng.chance(0.04):
+        # per-position tuple against a `size=` tuple (shared element spec) with a differing later element
+        child, base, extra_values = tv.shared_tuple_pair(g)
+        fixed_order = True
+      elif rng.chance(0.04):
         # variable tuple (min >= 1, no max) over a variable base with a max_size: the max must be inherited
         child, base, extra_values = tv.var_tuple_pair(g)
         fixed_order = rng.chance(0.8)
@@ -527,6 +558,7 @@ class C04(Prop):
     m = {}
     m['apply_a'] = apply_all(a, values)
     m['apply_b'] = apply_all(b, values)
+    out['dispatch'] = dispatch_mismatches(a, values) + dispatch_mismatches(b, values)
     out['unchanged_a'] = tv.readback(a) == sa
     out['unchanged_b'] = tv.readback(b) == sb
     m['compat_ab'] = bool(a.is_compatible(b))
@@ -613,6 +645,10 @@ class C04(Prop):
       if len(fails) < 24 and sig not in [f['signature'] for f in fails]:
         fails.append({'signature': sig, 'what': what})
 
+    for v, e0, e1 in out.get('dispatch') or []:
+      fail('union-exact-candidate-bypassed',
+           'the union applied to %s gives %s, but its first candidate of exactly that type gives %s' % (
+               json.dumps(v), json.dumps(e1), json.dumps(e0)))
     # applying never changes the spec
     for name in ('a', 'b'):
       if not out['unchanged_' + name]:
